@@ -51,6 +51,11 @@ ASSUMPTIONS = [
     'must not depend on the statements executed before on the connection',
     'other_accounts excludes the posting by object identity in the code and by position in the model: ledgers '
     'never hold the same Posting object twice in one transaction (equal-valued distinct postings are generated)',
+    'translator tie (C11_source_*): PyMini semantics (Model/PyMini.v), the translator (py2mini.py, src_ledger.py: '
+    '`x.a = v` on a local is a functional update, so a yielded Row is the Row AT THE YIELD) and the primitives of '
+    'Model/PrimsLedger.v (objects as attribute lists, isinstance = class identity, Row(...) = row0) are trusted; '
+    'self.prepare() is opaque (returns the entries; C13); the namedtuple field names/order of the encoding are '
+    'checked against the imported Beancount classes on every run',
 ]
 
 TABLE_ORDER = ['entries', 'postings', 'transactions', 'prices', 'balances', 'notes', 'events', 'documents',
@@ -1119,8 +1124,50 @@ def run(tier, rng):
     return {'coverage': cov, 'violations': violations}
 
 
+# the attribute names Model/PrimsLedger.v's directive_fields / enc_posting / enc_amount / enc_cost give the encoded
+# namedtuples (in declaration order; "$hash" stands for compare.hash_entry and is not an attribute)
+LEDGER_ENCODING_FIELDS = {
+    'Transaction': ('meta', 'date', 'flag', 'payee', 'narration', 'tags', 'links', 'postings'),
+    'Open': ('meta', 'date', 'account', 'currencies', 'booking'),
+    'Close': ('meta', 'date', 'account'),
+    'Commodity': ('meta', 'date', 'currency'),
+    'Pad': ('meta', 'date', 'account', 'source_account'),
+    'Balance': ('meta', 'date', 'account', 'amount', 'tolerance', 'diff_amount'),
+    'Note': ('meta', 'date', 'account', 'comment', 'tags', 'links'),
+    'Event': ('meta', 'date', 'type', 'description'),
+    'Query': ('meta', 'date', 'name', 'query_string'),
+    'Price': ('meta', 'date', 'currency', 'amount'),
+    'Document': ('meta', 'date', 'account', 'filename', 'tags', 'links'),
+    'Custom': ('meta', 'date', 'type'),          # Custom.values is not modelled
+    'Posting': ('account', 'units', 'cost', 'price', 'flag', 'meta'),
+}
+
+
+def _encoding_census():
+    """what the translator tie assumes of the Beancount classes, checked on the imported ones: field names and
+    order of the namedtuples as encoded in Model/PrimsLedger.v; isinstance on directives is class identity (no
+    directive class derives from another one)"""
+    classes = {n: getattr(data, n) for n in LEDGER_ENCODING_FIELDS}
+    bad = {}
+    for n, want in LEDGER_ENCODING_FIELDS.items():
+        got = tuple(f for f in classes[n]._fields if not (n == 'Custom' and f == 'values'))
+        if got != want:
+            bad[n] = got
+    dirs = [c for n, c in classes.items() if n != 'Posting']
+    sub = [(a.__name__, b.__name__) for a in dirs for b in dirs if a is not b and issubclass(a, b)]
+    if bad or sub:
+        raise RuntimeError(f'Beancount classes differ from the encoding of Model/PrimsLedger.v: fields {bad}, '
+                           f'subclassing {sub}')
+    return {'namedtuples_checked': len(classes), 'directive_classes_unrelated': True}
+
+
 def generate():
-    return gen_registry.generate()
+    out = dict(gen_registry.generate() or {})
+    # translator tie: regenerate coq/Gen/SrcLedgerTables.v from the source of the imported iterators (py2mini)
+    from . import gen_src
+    out.update(gen_src.generate('ledger_tables'))
+    out['src_ledger_tables_encoding'] = _encoding_census()
+    return out
 
 
 def replay(rec):
